@@ -312,7 +312,7 @@ def _parse_tool_output(out: str, res: TLCResult, parse_traces: bool = True):
             res.prints.append(line)
 
 
-def run_tlc(tla: str, cfg: Optional[str] = None, *, workers: int | str = 16, simulate: Optional[str] = None,
+def run_tlc(tla: str, cfg: Optional[str] = None, *, workers: int | str = int(os.environ.get("VERIF_TLC_WORKERS", "16")), simulate: Optional[str] = None,
             depth: Optional[int] = None, coverage: bool = False, cont: bool = False,
             dump_dot: Optional[str] = None, deadlock: Optional[bool] = None, seed: Optional[int] = None,
             env: Optional[dict] = None, timeout: float = 1800, extra: Iterable[str] = (),
